@@ -275,3 +275,8 @@ def run(ctx):
                    'disagrees with sf_format_check, which accepts up to %d channels: a file written with the maximum is refused here' % K), None)
     ctx.require(nlim >= 10, 'only %d channel limit comparisons found' % nlim)
 
+    ctx.rule('TAG-SEQ', 'MAT5: the sequence of MAT5_TYPE_* element tags written by mat5_write_header is accepted position by position by the type tests of mat5_read_header '
+             '(alternatives of an if/else share a position; a switch accepts its case labels)', floor=8)
+    from engine.tagseq import tag_seq
+    tag_seq(ctx, prog)
+
